@@ -93,6 +93,12 @@ func (e *Engine) GenVC(fn *ssa.Function, opts VerifyOpts) (res *FuncVC) {
 	}
 	res.HasContract = fr.contract != nil
 	res.NumLoops = len(fr.loopOrd)
+	vc.opaque = map[string]bool{}
+	if fr.contract != nil {
+		for _, n := range fr.contract.Opaque {
+			vc.opaque[e.qualifySpecName(fn, n)] = true
+		}
+	}
 	st := &State{reach: "true", heaps: map[string]string{}}
 	alloc0 := vc.allocOf(st)
 	var entryFacts []string
@@ -260,11 +266,7 @@ var _ = types.Typ
 // with the heap fixed to state st (lemmas are proved for an arbitrary heap, so any state may be used).
 func (fr *Frame) assumeLemma(name string, st *State) {
 	vc := fr.vc
-	pkgPath := fr.fn.Pkg.Pkg.Path()
-	key := name
-	if !strings.Contains(name, ".") {
-		key = pkgPath + "." + name
-	}
+	key := vc.eng.qualifySpecName(fr.fn, name)
 	lf := vc.eng.FindFunc(key)
 	ct := vc.eng.Contracts[key]
 	if lf == nil || ct == nil {
@@ -523,4 +525,25 @@ func (e *Engine) GenRefinementVC(ikey string, ict *Contract, m *ssa.Function, if
 	res.Obligs = vc.obligs
 	res.HasContract = true
 	return res
+}
+
+
+// qualifySpecName turns "name" or "alias.name" (as written in a contract of fn) into "pkgpath.name".
+func (e *Engine) qualifySpecName(fn *ssa.Function, name string) string {
+	pkgPath := ""
+	if fn.Pkg != nil {
+		pkgPath = fn.Pkg.Pkg.Path()
+	}
+	k := strings.LastIndex(name, ".")
+	if k < 0 {
+		return pkgPath + "." + name
+	}
+	if strings.Contains(name, "/") {
+		return name
+	}
+	env := &Env{vc: &VC{eng: e}, pkg: e.Pkgs[pkgPath]}
+	if p := env.importedPkg(name[:k]); p != nil {
+		return p.Path() + "." + name[k+1:]
+	}
+	return name
 }
